@@ -111,6 +111,116 @@ def h_web_views(c0: bytes, c1: bytes, target: int, body: bytes) -> bool:
     return run(body_web_views, c0, c1, target, body)
 
 
+def body_web_history(c0, d1, t1, b1, d2, t2, b2, d3, t3, b3):
+    """Three PUT / DELETE requests through ONE long-lived app (one cached store object): after each acknowledged
+    write, and again after a restart at the end, every live member's views (PUT response, GET, HEAD, PROPFIND,
+    multiget, sync-collection) carry one and the same quoted id of the bytes GET serves, those bytes are what the
+    history wrote, and a deleted member answers 404 - including histories that return to an earlier state
+    (A, B, A), where a cache keyed by content or tree id would serve a stale version."""
+    kind, wsgi, prefix = ctx.PART
+    S = {"a.ics": c0} if len(c0) > 0 else {}
+    if not SP.invariant(S):
+        return (True, "pre-invalid")
+    mweb.fresh_world(S, {}, kind=kind)
+    app = mweb.make_app()
+    names = ["a.ics", "n.ics"]
+    cls = "h"
+
+    def audit(app_, only=None):
+        for n in (names if only is None else [only]):
+            views, served = _etag_views(app_, n, wsgi, prefix)
+            if n in S:
+                want = '"' + mstore.expected_etag(kind, S[n]) + '"'
+                if served != S[n] or any(v != want for v in views.values()):
+                    return False
+            elif views["GET"] is not None or views["PROPFIND"] is not None or views["sync"] is not None:
+                return False
+        return True
+
+    for (dele, t, body) in ((d1, t1, b1), (d2, t2, b2), (d3, t3, b3)):
+        name = names[t]
+        path = mweb.CAL + "/" + name
+        if dele:
+            r = mweb.call(app, "DELETE", path, prefix=prefix, wsgi=wsgi)
+            want, S2 = SP.delete(S, name)
+            wantst = "2xx" if want == "ok" else "404"
+            cls += ":d"
+        else:
+            r = mweb.call(app, "PUT", path, body=body, content_type="text/calendar", prefix=prefix, wsgi=wsgi)
+            want, S2 = SP.put(S, name, body)
+            wantst = "2xx" if want == "ok" else "412"
+            cls += ":p" if want == "ok" else ":r"
+        if r.status_class != wantst:
+            return (False, cls)
+        S = S2
+        if not dele and want == "ok" and r.header("ETag") != '"' + mstore.expected_etag(kind, S[name]) + '"':
+            return (False, cls)
+        if not audit(app, name):
+            return (False, cls)
+    if not audit(app):
+        return (False, cls)
+    Wb.open_store_from_path.cache_clear()
+    return (audit(mweb.make_app()), cls)
+
+
+def h_web_history(c0: bytes, d1: bool, t1: int, b1: bytes, d2: bool, t2: int, b2: bytes, d3: bool, t3: int, b3: bytes) -> bool:
+    """
+    pre: max(len(c0), len(b1), len(b2), len(b3)) <= ctx.b.blen and 0 <= t1 <= 1 and 0 <= t2 <= 1 and 0 <= t3 <= 1
+    post: _
+    """
+    return run(body_web_history, c0, d1, t1, b1, d2, t2, b2, d3, t3, b3)
+
+
+def body_store_history(c0, d1, t1, b1, d2, t2, b2, d3, t3, b3):
+    """The same three-write history at the store API (one store object, all three back ends): after every step each
+    listed etag is the id of the bytes served, the bytes are what the history wrote, and import_one returned it."""
+    kind = ctx.PART
+    S = {"a.ics": c0} if len(c0) > 0 else {}
+    if not SP.invariant(S):
+        return (True, "pre-invalid")
+    from xv.env import world as Wm
+    Wm.reset()
+    mstore.install_state(kind, _store.PATH, S)
+    store = mstore.open_store(kind, _store.PATH)
+    names = ["a.ics", "n.ics"]
+    cls = "s"
+    for (dele, t, body) in ((d1, t1, b1), (d2, t2, b2), (d3, t3, b3)):
+        name = names[t]
+        ret = None
+        try:
+            if dele:
+                want, S2 = SP.delete(S, name)
+                store.delete_one(name, message="m")
+            else:
+                want, S2 = SP.put(S, name, body)
+                ret = store.import_one(name, None, [body], message="m")
+            got = "ok"
+        except Exception as e:
+            got = _store.classify(e)
+        cls += ":" + ("d" if dele else "p") + ("" if want == "ok" else "!")
+        if got != want:
+            return (False, cls)
+        S = S2
+        for st in (store, mstore.open_store(kind, _store.PATH)):
+            obs = mstore.observe(st)
+            if not mstore.agrees(kind, obs, S):
+                return (False, cls)
+            for n, (etag, data) in obs.items():
+                if etag != mstore.expected_etag(kind, data):
+                    return (False, cls)
+        if ret is not None and ret[1] != mstore.expected_etag(kind, S[name]):
+            return (False, cls)
+    return (True, cls)
+
+
+def h_store_history(c0: bytes, d1: bool, t1: int, b1: bytes, d2: bool, t2: int, b2: bytes, d3: bool, t3: int, b3: bytes) -> bool:
+    """
+    pre: max(len(c0), len(b1), len(b2), len(b3)) <= ctx.b.blen and 0 <= t1 <= 1 and 0 <= t2 <= 1 and 0 <= t3 <= 1
+    post: _
+    """
+    return run(body_store_history, c0, d1, t1, b1, d2, t2, b2, d3, t3, b3)
+
+
 def body_read_overlap(c0, bodyB, method_head):
     """A GET / HEAD whose body read (the to_thread suspension between resource look-up and store.get_file) is
     overtaken by a complete PUT of new content: the ETag sent must still be the id of the bytes sent."""
@@ -216,6 +326,27 @@ HARNESSES = [
                      "xandikos.webdav.GetETagProperty.get_value", "xandikos.webdav.PutMethod.handle", "xandikos.webdav._do_get",
                      "xandikos.davcommon.MultiGetReporter.report", "xandikos.sync.SyncCollectionReporter.report",
                      "xandikos.webdav.get_property_from_name"]),
+    Harness("store_history", h_store_history, body_store_history,
+            classes=[("s:p:p:p", "bare"), ("s:p:d:p", "tree"), ("s:p:p!:d", "vdir")],
+            parts={"quick": list(mstore.KINDS)}, bounds=_B, budget={"quick": 75, "thorough": 420},
+            twin_budget={"quick": 45, "thorough": 90},
+            describe="three puts / deletes through one store object (and a fresh one after each): listed etag == id of the "
+                     "served bytes == what import_one returned; bytes == what the history wrote; part = back end",
+            encodes=_store.STEP_ENCODES + ["xandikos.store.git.BareGitStore._get_current_tree"]),
+    Harness("web_history", h_web_history, body_web_history,
+            classes=[("h:p:p:p", ("bare", False, "/")), ("h:p:d:p", ("tree", True, "/dav/")), ("h:d:p:r", ("tree", True, "/dav/"))],
+            parts={"quick": [("bare", False, "/"), ("tree", True, "/dav/")],
+                   "thorough": [(k, w, p) for k in ("bare", "tree") for (w, p) in ((False, "/"), (True, "/dav/"))]},
+            bounds=_B, budget={"quick": 100, "thorough": 600}, twin_budget={"quick": 60, "thorough": 120},
+            per_path_timeout={"quick": 60, "thorough": 120},
+            describe="three PUT / DELETE requests through one long-lived app: after each, and after a final restart, all "
+                     "six views of every member agree on the quoted id of the bytes served == the bytes the history "
+                     "wrote (incl. histories that return to an earlier state); part = (store kind, WSGI?, prefix)",
+            encodes=["xandikos.web.ObjectResource.get_etag", "xandikos.webdav.PutMethod.handle", "xandikos.webdav.DeleteMethod.handle",
+                     "xandikos.webdav._do_get", "xandikos.davcommon.MultiGetReporter.report",
+                     "xandikos.sync.SyncCollectionReporter.report", "xandikos.store.git.BareGitStore._get_current_tree",
+                     "xandikos.store.git.BareGitStore._import_one", "xandikos.store.git.BareGitStore.delete_one",
+                     "xandikos.store.git.TreeGitStore._import_one", "xandikos.web.open_store_from_path"]),
     Harness("read_overlap", h_read_overlap, body_read_overlap, classes=[("overtaken", (False, "/"))],
             parts={"quick": [(False, "/")], "thorough": [(False, "/"), (False, "/dav/")]}, bounds=_B,
             budget={"quick": 75, "thorough": 300},
